@@ -24,7 +24,7 @@ TITLE = 'TAL statements: semantics and fixed order'
 LEVEL = 'exploration'
 SHARDS = {'quick': 16, 'thorough': 16}
 FLOOR = {'quick': 1500, 'thorough': 20000}
-REQUIRED_MONITORS = {'model-compared': 5000, 'permutations-compared': 3000}
+REQUIRED_MONITORS = {'model-compared': 5000, 'permutations-compared': 3000, 'semicolon-lists-compared': 500}
 RULE = ('a case = (AST, binding table, attribute permutation). Exhaustive layer: all 2^7-ish statement subsets on one element '
         '(content/replace exclusive, case only under a switch) x value vectors drawn per site from the classes None / default '
         '/ false-ish / true-ish / numbers / str / hostile str / bytes / str subclass / sequences / one-shot iterators / dict / '
@@ -307,13 +307,54 @@ def layer_random(ctx, n):
             compare(ctx, root, table, perms, g, sample=(i < 2 and b == 0))
 
 
+
+def layer_escaped_semicolons(ctx, n):
+    """tal:define / tal:attributes lists whose values contain semicolons: inside a part ';;' stands for one ';', a
+    single ';' separates parts - wherever the escaped semicolon stands (start, middle, very end of a value, several
+    in a row, directly before the separator or the end of the list)."""
+    from chameleon import PageTemplate
+    rng = ctx.rng
+    VALUES = ['a', 'a;b', 'a;', ';a', ';', ';;', 'a;;b', 'x;y;', 'color:red;', 'f();g();', 'p q', '&', 'é;']
+    for case in range(n):
+        k = rng.randint(1, 4)
+        vals = [rng.choice(VALUES) for _ in range(k)]
+        names = ['n%d' % i for i in range(k)]
+        stmt = rng.choice(['define', 'attributes'])
+        sep = rng.choice(['; ', ';', ';  ', ';\n   '])      # (white space in front of a separator would belong to the string: value)
+        enc = lambda v: v.replace(';', ';;').replace('&', '&amp;')
+        parts = ['%s string:%s' % (nm, enc(v)) for nm, v in zip(names, vals)]
+        lst = sep.join(parts) + rng.choice(['', ';', '; '])
+        if stmt == 'define':
+            src = '<p tal:define="%s">%s</p>' % (lst, '|'.join('${%s}' % nm for nm in names))
+            want = '<p>%s</p>' % '|'.join(v.replace('&', '&amp;') for v in vals)
+        else:
+            src = '<p tal:attributes="%s">x</p>' % lst
+            want = '<p%s>x</p>' % ''.join(' %s="%s"' % (nm, v.replace('&', '&amp;')) for nm, v in zip(names, vals))
+        try:
+            got = PageTemplate(src)()
+        except Exception as e:
+            got = 'RAISED %s: %s' % (type(e).__name__, str(e).split('\n')[0][:100])
+        ctx.mon('semicolon-lists-compared')
+        ctx.case(key=('semi', stmt, tuple(vals), sep.strip() == ';' and len(sep), lst[-1] == ';'), nontrivial=any(';' in v for v in vals))
+        if got != want:
+            ctx.violation('escaped-semicolon-in-list', 'template %r rendered %r, expected %r' % (src, got, want), {'kind': 'semi', 'src': src})
+
+
 def run(ctx):
     monitors.install(ctx, tokalg=False)
     layer_exhaustive(ctx)
     layer_random(ctx, 120 if ctx.quick else 2500)
+    layer_escaped_semicolons(ctx, 60 if ctx.quick else 1000)
 
 
 def replay(data):
+    if data.get('kind') == 'semi':
+        from chameleon import PageTemplate
+        try:
+            out = PageTemplate(data['src'])()
+        except Exception as e:
+            out = 'RAISED %s' % type(e).__name__
+        return True, 'template %r -> %r' % (data['src'], out)
     table = {int(k): (tuple(v) if isinstance(v, list) else v) for k, v in data['table'].items()}
     got = tmodel.run_real(data['src'], table)
     text = 'source %r\ntable %r\nreal  %r' % (data['src'], table, brief(got))
